@@ -126,12 +126,12 @@ Parse(p) == ParsePrefix(p, NF)
 
 \* framing-level well-formedness: every field readable, nothing left over
 WellFormed(pr, p) == pr.ok /\ pr.end = Len(p)
-\* in the image of the declarative template's encoder: a present NameValue section is never
-\* empty (the terminated typed-bytes combinator writes nothing at all for "no value"), and the
-\* extra-params collection is a mapping (no type twice).
+\* in the image of the declarative template's encoder: the extra-params collection is a mapping (no type
+\* twice).  "Present but empty" is a legal encoding of every variable-length section: a bare terminator for
+\* Text / MediaURL / NameValue, a zero count of extra params, a zero-length scratch pad or texture entry,
+\* nothing left for the trailing particle system.
 Distinct(s) == \A a, b \in 1..Len(s) : a # b => s[a] # s[b]
-Canonical(pr) == /\ (pr.f[FIdx("NameValue")].pres => pr.f[FIdx("NameValue")].len > 0)
-                 /\ Distinct(pr.xp)
+Canonical(pr) == Distinct(pr.xp)
 \* does the decoded field carry a value (as opposed to "no value")?  An empty texture entry
 \* and an empty name-value section decode to "no value".
 HasValue(pr, i) == pr.f[i].pres /\ (Fields[i].name \in {"TextureEntry", "NameValue"} => pr.f[i].len > 0)
@@ -163,7 +163,7 @@ Variant(nm, i, v, w) ==
     [] nm = "ExtraParams" -> (CASE v = 1 -> <<0>>
                                 [] v = 2 -> <<1, 32, 0, 16, 0, 0, 0>> \o Fill(52, 16)
                                 [] OTHER -> <<2, 112, 0, 4, 0, 0, 0, 1, 0, 0, 0, 48, 0, 17, 0, 0, 0>> \o Fill(53, 16) \o <<5>>)
-    [] nm = "NameValue" -> (CASE v = 2 -> NV2 [] v = 4 -> NV1 \o Long(300) [] OTHER -> NV1)
+    [] nm = "NameValue" -> (CASE v = 1 -> NV1 [] v = 2 -> NV2 [] v = 4 -> NV1 \o Long(300) [] OTHER -> <<>>)
     [] nm = "TextureEntry" -> (CASE v = 1 -> TE46 [] v = 2 -> <<>> [] OTHER -> TE80)
     [] nm = "TextureAnim" -> <<3, 255, 1, 1>> \o Fill(54, 12)
     [] nm = "PSBlockNew" -> (CASE v = 1 -> LE32(68) \o PSys68 \o LE32(18) \o PData18
